@@ -243,9 +243,10 @@ class FinalizeQuery(Contract):
     id = "C08.Backend.finalize_query"
     target = f"{CBm}:Backend.finalize_query"
     props = ("C08", "C14")
-    cases = ("default", "other", "unknown")
+    cases = tuple((f, u) for f in ("default", "other", "unknown") for u in ("user pipeline", "no user pipeline"))      # no user pipeline behaves like the empty one: backend and format pipelines still post-process
 
     def args(self, I, case):
+        case, user = case
         idx = I.E.index
         log = []
 
@@ -261,7 +262,8 @@ class FinalizeQuery(Contract):
             return SObj("Postprocessed", {"of": a[1], "rule": a[0]})
         pipe = SObj("Pipeline", {"postprocess_query": NativeFn("postprocess_query", pq)})
         fmt = {"default": "default", "other": "other", "unknown": "nope"}[case]
-        me = SObj(idx.lookup(f"{CBm}:Backend"), {"formats": {"default": "d", "other": "o"}, "finalize_query_default": fq("default"), "finalize_query_other": fq("other"), "last_processing_pipeline": pipe}, lazy=True)
+        me = SObj(idx.lookup(f"{CBm}:Backend"), {"formats": {"default": "d", "other": "o"}, "finalize_query_default": fq("default"), "finalize_query_other": fq("other"), "last_processing_pipeline": pipe,
+                                                  "processing_pipeline": SObj("UserPipeline", {"postprocess_query": NativeFn("user.postprocess_query", lambda I2, a, k: (log.append(("user-only postprocess",)), a[1])[1])}) if user == "user pipeline" else None}, lazy=True)
         rule, q, st, i = SObj("Rule", {}), SObj("Query", {}), SObj("State", {}), I.fresh("index", "int")
         return {"self": me, "args": [rule, q, i, st, fmt], "log": log, "rule": rule, "q": q, "st": st, "i": i, "case": case}
 
@@ -289,15 +291,17 @@ class FinalizeOutput(Contract):
     id = "C08.Backend.finalize"
     target = f"{CBm}:Backend.finalize"
     props = ("C08", "C14")
-    cases = ("default", "other", "unknown")
+    cases = tuple((f, u) for f in ("default", "other", "unknown") for u in ("user pipeline", "no user pipeline"))
 
     def args(self, I, case):
+        case, user = case
         idx = I.E.index
         log = []
         fo = lambda name: NativeFn("finalize_output_" + name, lambda I2, a, k: (log.append(("format", name)), SObj("FormatOutput", {"by": name, "of": a[0]}))[1])
         pipe = SObj("Pipeline", {"finalize": NativeFn("finalize", lambda I2, a, k: (log.append(("pipeline",)), SObj("Finalized", {"of": a[0]}))[1])})
         fmt = {"default": "default", "other": "other", "unknown": "nope"}[case]
-        me = SObj(idx.lookup(f"{CBm}:Backend"), {"formats": {"default": "d", "other": "o"}, "finalize_output_default": fo("default"), "finalize_output_other": fo("other"), "last_processing_pipeline": pipe}, lazy=True)
+        me = SObj(idx.lookup(f"{CBm}:Backend"), {"formats": {"default": "d", "other": "o"}, "finalize_output_default": fo("default"), "finalize_output_other": fo("other"), "last_processing_pipeline": pipe,
+                                                  "processing_pipeline": SObj("UserPipeline", {"finalize": NativeFn("user.finalize", lambda I2, a, k: (log.append(("user-only finalize",)), a[0])[1])}) if user == "user pipeline" else None}, lazy=True)
         qs = [SObj("Q", {}), SObj("Q", {})]
         return {"self": me, "args": [qs, fmt], "log": log, "qs": qs, "case": case}
 
